@@ -35,7 +35,8 @@ const FIXED: &[&str] = &[
 
 fn run_cargo(dir: &PathBuf) -> Result<Vec<Value>, String> {
     let out = Command::new("cargo")
-        .args(["check", "--offline", "--message-format=json", "--target-dir", "/verif/work/target-pm"])
+        .args(["check", "--offline", "--message-format=json", "--target-dir"])
+        .arg(model::run::root().join("work/target-pm"))
         .current_dir(dir)
         .env("CARGO_NET_OFFLINE", "true")
         .env_remove("RUSTFLAGS")
@@ -67,7 +68,7 @@ fn write_crate(dir: &PathBuf, sources: &[String]) {
     )
     .unwrap();
     if !dir.join("Cargo.lock").exists() {
-        let _ = std::fs::copy("/verif/harness/Cargo.lock", dir.join("Cargo.lock"));
+        let _ = std::fs::copy(model::run::root().join("harness/Cargo.lock"), dir.join("Cargo.lock"));
     }
     let mut lib = String::from("#![allow(unused)]\n");
     for (i, s) in sources.iter().enumerate() {
@@ -120,7 +121,7 @@ pub fn main(args: &Args) -> i32 {
         "tier P: the C19 attribute soup (same generator) plus fixed duplicate-argument cases, each as a module of a scratch crate compiled with the real proc-macro on the stable toolchain (cargo check, JSON diagnostics); oracle: no 'proc-macro derive panicked'; every compile_error message the library entry point produced for the source is reported by rustc for that module, and a module the library accepts gets no logos diagnostic; non-trivial = distinct modules with a malformed/duplicated attribute or must-reject item",
     );
     run.assumptions = vec!["diagnostics are attributed to modules through the file name of their primary spans".into()];
-    let dir = PathBuf::from("/verif/work/pm-crate");
+    let dir = model::run::root().join("work/pm-crate");
     let mut sources: Vec<String> = Vec::new();
     let mut meta: Vec<(Option<&'static str>, bool)> = Vec::new();
     if let Some(path) = &args.replay {
